@@ -1,7 +1,7 @@
 (* Props/C16.v — property C16: stopping early or failing mid-stream yields a prefix of the full
    results.  Statements only. *)
 From RG Require Import Base.Bytes Model.Lines Model.SearcherCore Model.Glue
-  Proofs.PrefixLaw Proofs.PrefixCore.
+  Model.ReadByLine Proofs.PrefixLaw Proofs.PrefixCore Proofs.MLPrefix Proofs.RBLPrefix Proofs.RBLFail.
 
 (* 1. SliceByLine::run (fast and slow line paths, any binary-detection mode, any matcher, any
       configuration, any input): let [evs] be the sink calls of the run with a sink that always
@@ -32,6 +32,63 @@ Theorem match_by_line_prefix_law :
 Proof. exact good_match_by_line. Qed.
 Print Assumptions match_by_line_prefix_law.
 
+(* 3. the same law for MultiLine::run (the repaired final flush, D7, is inside it) *)
+Theorem stop_is_prefix_multi_line :
+  forall (cfg : config) (M : matcher) (s : bytes) (r : nat -> reply) (evs : list event),
+    multi_line_run cfg M (fun _ => Continue) s = RunOk evs ->
+    (quiet r 0 (length evs) -> multi_line_run cfg M r s = RunOk evs) /\
+    (forall k, S k < length evs -> quiet r 0 k -> r k <> Continue ->
+       match r k with
+       | Stop => exists n b, multi_line_run cfg M r s =
+                   (match r (S k) with Fail => RunErr | _ => RunOk end) (firstn (S k) evs ++ [EFinish n b])
+       | _ => multi_line_run cfg M r s = RunErr (firstn (S k) evs)
+       end).
+Proof. exact stop_is_prefix_multi_line_proof. Qed.
+Print Assumptions stop_is_prefix_multi_line.
+
+(* 4. the same law for ReadByLine::run, for every buffer capacity, growth policy and read history —
+      including histories in which a read fails: then the reference run itself ends with the error
+      (second conjunct) and a stopping sink still gets a prefix of it. *)
+Theorem stop_is_prefix_reader :
+  forall (cfg : config) (M : matcher) (pol : alloc_policy) (cap : nat) (stream : bytes) (hist : list read_step)
+         (r : nat -> reply) (evs : list event),
+    let run := fun r => read_by_line_run cfg M r pol cap stream hist in
+    (run (fun _ => Continue) = RunOk evs ->
+       (quiet r 0 (length evs) -> run r = RunOk evs) /\
+       (forall k, S k < length evs -> quiet r 0 k -> r k <> Continue ->
+          match r k with
+          | Stop => exists n b, run r =
+                      (match r (S k) with Fail => RunErr | _ => RunOk end) (firstn (S k) evs ++ [EFinish n b])
+          | _ => run r = RunErr (firstn (S k) evs)
+          end))
+    /\
+    (run (fun _ => Continue) = RunErr evs ->
+       (quiet r 0 (length evs) -> run r = RunErr evs) /\
+       (forall k, k < length evs -> quiet r 0 k -> r k <> Continue ->
+          match r k with
+          | Stop => exists n b, run r =
+                      (match r (S k) with Fail => RunErr | _ => RunOk end) (firstn (S k) evs ++ [EFinish n b])
+          | _ => run r = RunErr (firstn (S k) evs)
+          end)).
+Proof. intros cfg M pol cap stream hist r evs. exact (stop_is_prefix_reader_proof cfg M pol cap stream hist r evs). Qed.
+Print Assumptions stop_is_prefix_reader.
+
+(* 5. a failing input source: if read number |h1| fails (or is interrupted), the run returns the
+      error, finish is not called, and the results delivered are a prefix of the results of any
+      run whose read history agrees before that read (in particular of the uninterrupted one);
+      or the failing read is never reached and the runs are equal. *)
+Theorem read_failure_is_prefix :
+  forall (x y : read_step) (h1 h2 h2' : list read_step),
+    x = RFail \/ x = RInterrupted ->
+    forall (cfg : config) (M : matcher) (pol : alloc_policy) (cap : nat) (stream : bytes),
+    let runF := read_by_line_run cfg M (fun _ => Continue) pol cap stream (h1 ++ x :: h2) in
+    let runG := read_by_line_run cfg M (fun _ => Continue) pol cap stream (h1 ++ y :: h2') in
+    runF = runG \/
+    exists evs, runF = RunErr evs /\
+      match events_of runG with Some evsG => exists rest, evsG = evs ++ rest | None => True end.
+Proof. intros x y h1 h2 h2' Hx cfg M pol cap stream. exact (read_failure_is_prefix_proof x y h2 h2' Hx cfg M pol cap stream h1). Qed.
+Print Assumptions read_failure_is_prefix.
+
 (* non-vacuity: a concrete run with a match, context and a stop at the second call *)
 Example stop_example :
   let cfg := {| c_lt := LTByte 10; c_invert := false; c_after := 1; c_before := 0; c_passthru := false;
@@ -42,3 +99,15 @@ Example stop_example :
   slice_by_line_run cfg M (fun i => if Nat.eqb i 1 then Stop else Continue) [97; 10; 98; 10]%N
   = RunOk [EBegin; EMatched 0 (Some 1) [97; 10]%N; EFinish 2 None].
 Proof. vm_compute. reflexivity. Qed.
+
+Example read_failure_example :
+  let cfg := {| c_lt := LTByte 10; c_invert := false; c_after := 0; c_before := 0; c_passthru := false;
+                c_line_number := true; c_stop_on_nonmatch := false; c_binary := BNone; c_multi_line := false |} in
+  let M := {| m_is_match := fun l => match l with 97%N :: _ => true | _ => false end;
+              m_find_candidate := fun _ => None; m_line_term := None; m_nonmatching := fun _ => false;
+              m_find_at := fun _ _ => None |} in
+  read_by_line_run cfg M (fun _ => Continue) AEager 2 [97; 10; 97; 10]%N [RChunk 2; RFail]
+    = RunErr [EBegin; EMatched 0 (Some 1) [97; 10]%N]
+  /\ read_by_line_run cfg M (fun _ => Continue) AEager 2 [97; 10; 97; 10]%N [RChunk 2; RChunk 2]
+    = RunOk [EBegin; EMatched 0 (Some 1) [97; 10]%N; EMatched 2 (Some 2) [97; 10]%N; EFinish 4 None].
+Proof. vm_compute. split; reflexivity. Qed.
